@@ -18,7 +18,7 @@ Lemma DDInv_reachable buf s : reachable buf s -> DDInv s.
 Proof.
   apply (reachable_ind' DDInv buf); [intros x H; discriminate|].
   intros s0 l s1 _ D T x Hd.
-  destruct (trans_ops _ _ _ x T) as [[E1 E2]|(o & _ & E1 & E2 & _)].
+  destruct (trans_ops _ _ _ x T) as [[E1 E2]|(o & _ & _ & E1 & E2 & _)].
   - rewrite E1. apply D. congruence.
   - rewrite E1. rewrite E2 in Hd. destruct o; try discriminate. apply in_or_app. right. now left.
 Qed.
@@ -54,8 +54,11 @@ Qed.
     possibly replaced by new instructions in front of a non-empty rest *)
 Lemma trans_pc_actor s l s' x :
   Inv s -> trans s l s' -> label_of_conn x l = true ->
-  (exists o, l = LOp x o /\ c_pc (r_cs s x) = [] /\ c_pc (r_cs s' x) = program s x o) \/
-  (exists i rest heads, c_pc (r_cs s x) = i :: rest /\ c_pc (r_cs s' x) = heads ++ rest /\ (heads = [] \/ rest <> [])).
+  (exists o, (l = LOp x o \/ (l = LRun x /\ o = ODisc /\ In x (r_cancel s))) /\
+             c_pc (r_cs s x) = [] /\ c_pc (r_cs s' x) = program s x o) \/
+  (exists i rest heads, c_pc (r_cs s x) = i :: rest /\ c_pc (r_cs s' x) = heads ++ rest /\ (heads = [] \/ rest <> []) /\
+                        (l = LRun x \/ (exists c' ord, l = LVisit x c' ord) \/ l = LSkip x)) \/
+  (l = LOp x ODisc /\ c_pc (r_cs s x) <> [] /\ c_pc (r_cs s' x) = c_pc (r_cs s x)).
 Proof.
   intros I T Hl.
   assert (Hact : forall c, label_of_conn x (LRun c) = true -> x = c)
@@ -63,31 +66,35 @@ Proof.
   inversion T; subst; cbn [label_of_conn] in Hl; try discriminate; try (apply Hact in Hl; subst x);
     cbn [r_cs with_cs].
   - left. exists o. rewrite upd_same. auto.
-  - right. exists IRegAdd, rest, []. rewrite upd_same. auto.
-  - right. exists (ISubAdd sub fs), rest, []. rewrite upd_same. auto.
-  - right. exists (ISubAdd sub fs), rest, []. rewrite upd_same. auto.
-  - right. exists (ISubDel sub), rest, []. rewrite upd_same. auto.
-  - right. exists (ISubDel sub), rest, []. rewrite upd_same. auto.
-  - right. exists i, rest, []. rewrite upd_same. auto.
-  - right. exists (IPubBegin e), rest, [IPub e (c, c_ctr (r_cs s c)) (List.map fst (r_reg s))]. rewrite upd_same. cbn.
+  - right; left. exists IRegAdd, rest, []. rewrite upd_same. auto 6.
+  - right; left. exists (ISubAdd sub fs), rest, []. rewrite upd_same. auto 6.
+  - right; left. exists (ISubAdd sub fs), rest, []. rewrite upd_same. auto 6.
+  - right; left. exists (ISubDel sub), rest, []. rewrite upd_same. auto 6.
+  - right; left. exists (ISubDel sub), rest, []. rewrite upd_same. auto 6.
+  - right; left. exists i, rest, []. rewrite upd_same. auto 6.
+  - right; left. exists (IPubBegin e), rest, [IPub e (c, c_ctr (r_cs s c)) (List.map fst (r_reg s))]. rewrite upd_same. cbn.
     repeat split; auto. right. pose proof (inv_pc s I c) as P. rewrite H in P.
     rewrite (pc_ok_inv_pubbegin _ _ _ _ P). discriminate.
-  - right. exists (IPub e t []), rest, []. rewrite upd_same. auto.
+  - right; left. exists (IPub e t []), rest, []. rewrite upd_same. auto 6.
   - assert (x = c) by (destruct H1 as [->|[-> _]]; cbn in Hl; now apply Nat.eqb_eq in Hl). subst x.
-    right. unfold start_visit. cbn [r_cs with_cs].
+    right; left. unfold start_visit. cbn [r_cs with_cs].
     rewrite (pc_upd2 _ _ _ _ (fun st => set_rd st (c :: c_rd st))) by (intro; reflexivity). rewrite upd_same. cbn.
-    eexists _, rest, [_; _]. split; [eassumption|]. split; [reflexivity|]. right.
-    pose proof (inv_pc s I c) as P. rewrite H in P.
-    destruct (pc_ok_inv_pub _ _ _ _ _ _ P) as (n & id & _ & -> & _). discriminate.
-  - right.
+    eexists _, rest, [_; _]. split; [eassumption|]. split; [reflexivity|]. split.
+    + right. pose proof (inv_pc s I c) as P. rewrite H in P.
+      destruct (pc_ok_inv_pub _ _ _ _ _ _ P) as (n & id & _ & -> & _). discriminate.
+    + destruct H1 as [->|[-> _]]; eauto.
+  - right; left.
     rewrite (pc_upd2 _ _ _ _ (fun st => set_rd st (remove_conn c (c_rd st)))) by (intro; reflexivity). rewrite upd_same. cbn.
-    eexists _, rest, []. eauto.
-  - right.
+    eexists _, rest, []. eauto 6.
+  - right; left.
     rewrite (pc_upd2 _ _ _ _ (send_if_match (r_buf s) e t sub fs)) by (intro; apply ctl_send_if_match). rewrite upd_same. cbn.
-    eexists _, rest, [_]. split; [eassumption|]. split; [reflexivity|]. right.
+    eexists _, rest, [_]. split; [eassumption|]. split; [reflexivity|]. split; [|auto]. right.
     pose proof (inv_pc s I c) as P. rewrite H in P.
     destruct (pc_ok_inv_visit _ _ _ _ _ _ _ P) as (n & rem & id & _ & -> & _). discriminate.
-  - right. exists IUnsubAll, rest, []. rewrite upd_same. auto.
+  - right; left. exists IUnsubAll, rest, []. rewrite upd_same. auto 6.
+  - right; right. auto.
+  - right; left. exists i, rest, []. rewrite upd_same. cbn. auto 7.
+  - left. exists ODisc. rewrite upd_same. cbn. auto 7.
 Qed.
 
 Lemma LOInv_reachable buf s : reachable buf s -> LOInv s.
@@ -96,24 +103,32 @@ Proof.
   destruct (step_trans s l) as [E|T]; [now rewrite E|].
   pose proof (Inv_reachable buf s R) as I. intros x Hx.
   destruct (label_of_conn x l) eqn:Hl.
-  - destruct (trans_pc_actor s l _ x I T Hl) as [(o & El & Hpc & Hpc')|(i & rest & heads & Hpc & Hpc' & Hh)].
-    + destruct (trans_ops _ _ _ x T) as [[E _]|(o' & El' & E & _)].
-      * exfalso. subst l. pose proof (trans_actor _ _ _ T) as [A1 A2].
-        assert (A : accepted s x = true) by (unfold accepted; now rewrite A1, A2).
-        rewrite (accepted_step _ _ o A) in E. apply (f_equal (@length op)) in E. rewrite app_length in E. cbn in E. lia.
-      * rewrite El in El'. inversion El'; subst o'. rewrite E, Hpc'.
+  - destruct (trans_pc_actor s l _ x I T Hl) as [(o & El & Hpc & Hpc')|[(i & rest & heads & Hpc & Hpc' & Hh & Hlab)|(El & Hne & Hpc')]].
+    + destruct (trans_ops _ _ _ x T) as [[E _]|(o' & El' & _ & E & _ & Ep)].
+      * exfalso. (* the operations did not grow although one was accepted *)
+        destruct El as [->|(-> & -> & Hc)].
+        -- pose proof (trans_actor _ _ _ T) as (A1 & A2 & _).
+           unfold step in E. cbn [enabled step_enabled] in E. rewrite Hpc, A1 in E. apply mem_conn_false in A2. rewrite A2 in E.
+           cbn [orb r_cs with_cs] in E. rewrite upd_same in E. cbn in E. apply (f_equal (@length op)) in E. rewrite app_length in E. cbn in E. lia.
+        -- unfold step in E. cbn [enabled step_enabled] in E. unfold run_instr in E. rewrite Hpc in E. apply mem_conn_In in Hc. rewrite Hc in E.
+           cbn [r_cs] in E. rewrite upd_same in E. cbn in E. apply (f_equal (@length op)) in E. rewrite app_length in E. cbn in E. lia.
+      * assert (o' = o).
+        { rewrite Hpc' in Ep. destruct El as [->|(-> & -> & _)], El' as [El'|(El' & -> & _)]; try discriminate; try reflexivity.
+          now inversion El'. }
+        subst o'. rewrite E, Hpc'.
         destruct (program_fin s x o) as [P0|[pre P0]]; [rewrite Hpc', P0 in Hx; contradiction|].
         exists (c_ops (r_cs s x)), o, pre. auto.
     + assert (Hne : c_pc (r_cs s x) <> []) by (rewrite Hpc; discriminate).
       destruct (IH x Hne) as (ops0 & o & pre & Eo & Ep).
       assert (Eops : c_ops (r_cs (step s l) x) = c_ops (r_cs s x)).
-      { destruct (trans_ops _ _ _ x T) as [[E _]|(o' & El' & _ & _ & Ep')]; [assumption|].
-        subst l. pose proof (trans_actor _ _ _ T) as [A1 _]. rewrite Hpc in A1. discriminate. }
+      { destruct (trans_ops _ _ _ x T) as [[E _]|(o' & _ & Hp & _)]; [assumption | congruence]. }
       rewrite Eops, Hpc'. exists ops0, o.
       destruct rest as [|i2 rest2].
       * destruct Hh as [->|Hh]; [|contradiction]. rewrite Hpc' in Hx. cbn in Hx. contradiction.
       * rewrite Hpc in Ep. destruct pre as [|i0 pre]; [cbn in Ep; inversion Ep|].
         cbn in Ep. inversion Ep as [[E1 E2]]. exists (heads ++ pre). rewrite E2. split; [assumption | now rewrite app_assoc].
+    + destruct (IH x Hne) as (ops0 & o & pre & Eo & Ep). rewrite Hpc'. exists ops0, o, pre. split; [|assumption].
+      destruct (trans_ops _ _ _ x T) as [[E _]|(o' & _ & Hp & _)]; [now rewrite E | contradiction].
   - rewrite (trans_pc_other _ _ _ _ T Hl) in *.
     destruct (IH x Hx) as (ops0 & o & pre & Eo & Ep). exists ops0, o, pre. split; [|assumption].
     destruct (ctl_fields _ _ (trans_ctl_other _ _ _ x T Hl)) as (_ & _ & E & _). now rewrite E.
@@ -176,7 +191,8 @@ Lemma trans_pub_view s l s' p :
   (c_ctr (r_cs s' p) = c_ctr (r_cs s p) /\ count_pb (c_pc (r_cs s' p)) = count_pb (c_pc (r_cs s p)) /\
    (forall e, In (IPubBegin e) (c_pc (r_cs s' p)) -> In (IPubBegin e) (c_pc (r_cs s p))) /\
    (forall e t, cur_pub (c_pc (r_cs s' p)) e t -> cur_pub (c_pc (r_cs s p)) e t) /\
-   (exists c', l = LRun c' \/ exists c2 ord, l = LVisit c' c2 ord)).
+   (l = LRun p \/ (exists c2 ord, l = LVisit p c2 ord) \/ l = LSkip p)) \/
+  (l = LOp p ODisc /\ c_pc (r_cs s p) <> [] /\ c_pc (r_cs s' p) = c_pc (r_cs s p) /\ c_ctr (r_cs s' p) = c_ctr (r_cs s p)).
 Proof.
   intros I T Hl.
   assert (Hact : forall c, label_of_conn p (LRun c) = true -> p = c)
@@ -192,20 +208,20 @@ Proof.
   inversion T; subst; cbn [label_of_conn] in Hl; try discriminate; try (apply Hact in Hl; subst p);
     cbn [r_cs with_cs].
   - left. exists o. rewrite upd_same. cbn. auto.
-  - right; right. rewrite upd_same. cbn [c_ctr c_pc set_pc]. destruct (Pop _ _ H eq_refl (or_intror Logic.I)) as (A & B & C). eauto 10.
-  - right; right. rewrite upd_same. cbn [c_ctr c_pc set_pc]. destruct (Pop _ _ H eq_refl (or_intror Logic.I)) as (A & B & C). eauto 10.
-  - right; right. rewrite upd_same. cbn [c_ctr c_pc set_pc]. destruct (Pop _ _ H eq_refl (or_intror Logic.I)) as (A & B & C). eauto 10.
-  - right; right. rewrite upd_same. cbn [c_ctr c_pc set_pc]. destruct (Pop _ _ H eq_refl (or_intror Logic.I)) as (A & B & C). eauto 10.
-  - right; right. rewrite upd_same. cbn [c_ctr c_pc set_pc]. destruct (Pop _ _ H eq_refl (or_intror Logic.I)) as (A & B & C). eauto 10.
-  - right; right. rewrite upd_same. cbn [c_ctr c_pc set_pc push_out].
+  - right; right; left. rewrite upd_same. cbn [c_ctr c_pc set_pc]. destruct (Pop _ _ H eq_refl (or_intror Logic.I)) as (A & B & C). eauto 10.
+  - right; right; left. rewrite upd_same. cbn [c_ctr c_pc set_pc]. destruct (Pop _ _ H eq_refl (or_intror Logic.I)) as (A & B & C). eauto 10.
+  - right; right; left. rewrite upd_same. cbn [c_ctr c_pc set_pc]. destruct (Pop _ _ H eq_refl (or_intror Logic.I)) as (A & B & C). eauto 10.
+  - right; right; left. rewrite upd_same. cbn [c_ctr c_pc set_pc]. destruct (Pop _ _ H eq_refl (or_intror Logic.I)) as (A & B & C). eauto 10.
+  - right; right; left. rewrite upd_same. cbn [c_ctr c_pc set_pc]. destruct (Pop _ _ H eq_refl (or_intror Logic.I)) as (A & B & C). eauto 10.
+  - right; right; left. rewrite upd_same. cbn [c_ctr c_pc set_pc push_out].
     assert (Hi : is_pubbegin i = false) by (destruct i; cbn in H0; try contradiction; reflexivity).
     destruct (Pop _ _ H Hi (or_intror Logic.I)) as (A & B & C). eauto 10.
   - right; left. exists e. rewrite upd_same. cbn [c_ctr c_pc].
     pose proof (inv_pc s I c) as P. rewrite H in P. rewrite (pc_ok_inv_pubbegin _ _ _ _ P) in *. auto.
-  - right; right. rewrite upd_same. cbn [c_ctr c_pc set_pc]. destruct (Pop _ _ H eq_refl (or_intror Logic.I)) as (A & B & C). eauto 10.
+  - right; right; left. rewrite upd_same. cbn [c_ctr c_pc set_pc]. destruct (Pop _ _ H eq_refl (or_intror Logic.I)) as (A & B & C). eauto 10.
   - (* visit *)
     assert (p = c) by (destruct H1 as [->|[-> _]]; cbn in Hl; now apply Nat.eqb_eq in Hl). subst p.
-    right; right. unfold start_visit. cbn [r_cs with_cs].
+    right; right; left. unfold start_visit. cbn [r_cs with_cs].
     rewrite (pc_upd2 _ _ _ _ (fun st => set_rd st (c :: c_rd st))) by (intro; reflexivity).
     rewrite (ctr_upd2 _ _ _ _ (fun st => set_rd st (c :: c_rd st))) by (intro; reflexivity).
     rewrite upd_same. cbn [c_ctr c_pc set_pc]. rewrite H. split; [reflexivity|]. split; [reflexivity|]. split; [|split].
@@ -214,12 +230,12 @@ Proof.
       * exists (IPub e t rem). split; [now left | exact Hp].
       * exists (IPub e t rem). split; [now left | exact Hp].
       * exists j. split; [now right | assumption].
-    + exists c. destruct H1 as [->|[-> _]]; eauto.
-  - right; right.
+    + destruct H1 as [->|[-> _]]; eauto.
+  - right; right; left.
     rewrite (pc_upd2 _ _ _ _ (fun st => set_rd st (remove_conn c (c_rd st)))) by (intro; reflexivity).
     rewrite (ctr_upd2 _ _ _ _ (fun st => set_rd st (remove_conn c (c_rd st)))) by (intro; reflexivity).
     rewrite upd_same. cbn [c_ctr c_pc set_pc]. destruct (Pop _ _ H eq_refl (or_intror Logic.I)) as (A & B & C). eauto 10.
-  - right; right.
+  - right; right; left.
     rewrite (pc_upd2 _ _ _ _ (send_if_match (r_buf s) e t sub fs)) by (intro; apply ctl_send_if_match).
     rewrite (ctr_upd2 _ _ _ _ (send_if_match (r_buf s) e t sub fs)) by (intro; apply ctl_send_if_match).
     rewrite upd_same. cbn [c_ctr c_pc set_pc]. rewrite H. split; [reflexivity|]. split; [reflexivity|]. split; [|split].
@@ -227,8 +243,18 @@ Proof.
     + intros e0 t0 (j & [<-|Hj] & Hp); cbn in Hp.
       * exists (IVisit e t c' ((sub, fs) :: todo)). split; [now left | exact Hp].
       * exists j. split; [now right | assumption].
-    + eauto.
-  - right; right. rewrite upd_same. cbn [c_ctr c_pc]. destruct (Pop _ _ H eq_refl (or_intror Logic.I)) as (A & B & C). eauto 10.
+    + auto.
+  - right; right; left. rewrite upd_same. cbn [c_ctr c_pc]. destruct (Pop _ _ H eq_refl (or_intror Logic.I)) as (A & B & C). eauto 10.
+  - (* cancel *) right; right; right. auto.
+  - (* skip *)
+    right; right; left. rewrite upd_same. cbn [c_ctr c_pc set_pc].
+    assert (Hi : is_pubbegin i = false) by (destruct i; cbn in H0; try contradiction; reflexivity).
+    destruct (Pop _ _ H Hi (or_intror Logic.I)) as (A & B & C). eauto 10.
+  - (* defer *)
+    right; right; left. rewrite upd_same. cbn [c_ctr c_pc]. rewrite H. split; [reflexivity|]. split; [reflexivity|]. split; [|split].
+    + intros e [X|[]]. discriminate.
+    + intros e t (j & [<-|[]] & Hp). contradiction.
+    + auto.
 Qed.
 
 Lemma istep_pubs_other st l p :
@@ -236,15 +262,15 @@ Lemma istep_pubs_other st l p :
 Proof.
   intro Hl. destruct (step_trans (i_s st) l) as [E|T].
   - now destruct (istep_stutter st l E) as [-> _].
-  - rewrite (istep_hops_trans st l T). destruct l as [c o|c|c c' ord|c|c]; try reflexivity; cbn in Hl.
+  - rewrite (istep_hops_trans st l T). destruct l as [c o|c|c c' ord|c|c|c]; try reflexivity; cbn in Hl.
     + rewrite pubs_of_app. unfold pubs_of at 2. cbn [filter h_c]. rewrite Nat.eqb_sym, Hl. cbn. apply app_nil_r.
-    + destruct (is_nil _); [|reflexivity]. rewrite pubs_of_close.
+    + destruct (_ && _); [|reflexivity]. rewrite pubs_of_close.
       rewrite <- (map_id (pubs_of p (i_hops st))) at 2. apply map_ext_in.
       intros h Hin. apply filter_In in Hin as [_ Hin]. apply andb_true_iff in Hin as [Hin _]. apply Nat.eqb_eq in Hin.
       apply close1_other. apply Nat.eqb_neq in Hl. congruence.
 Qed.
 
-Lemma pub_nth_close H p c k n P : pub_nth H p n P -> pub_nth (close_hop c k H) p n (close1 c k P).
+Lemma pub_nth_close H p d c k n P : pub_nth H p n P -> pub_nth (close_hop d c k H) p n (close1 d c k P).
 Proof. intro E. unfold pub_nth. rewrite pubs_of_close. now apply map_nth_error. Qed.
 
 Theorem PubInv_step buf st l : reachable buf (i_s st) -> PubInv st -> PubInv (istep st l).
@@ -260,20 +286,29 @@ Proof.
   { intros p Hl. split; [now apply istep_pubs_other|].
     destruct (ctl_fields _ _ (trans_ctl_other _ _ _ p T Hl)) as (E1 & _ & _ & E2). auto. }
   pose proof (istep_hops_trans st l T) as EH.
+  (* when the program of p goes on, the operations of p are unchanged *)
+  assert (Keep : forall p, (l = LRun p \/ (exists c2 ord, l = LVisit p c2 ord) \/ l = LSkip p) ->
+            c_pc (r_cs (step (i_s st) l) p) <> [] -> i_hops (istep st l) = i_hops st).
+  { intros p Hlab Hne. rewrite EH. destruct Hlab as [->|[(c2 & ord & ->)| ->]]; try reflexivity.
+    apply is_nil_false in Hne. rewrite Hne. now rewrite andb_false_r. }
+  assert (Len : forall p, (l = LRun p \/ (exists c2 ord, l = LVisit p c2 ord) \/ l = LSkip p) ->
+            length (pubs_of p (i_hops (istep st l))) = length (pubs_of p (i_hops st))).
+  { intros p Hlab. rewrite EH. destruct Hlab as [->|[(c2 & ord & ->)| ->]]; try reflexivity.
+    destruct (_ && _); [|reflexivity]. rewrite pubs_of_close. apply map_length. }
   constructor; rewrite ?istep_s.
   - (* p_len *)
     intro p. destruct (label_of_conn p l) eqn:Hl; [|destruct (Other p Hl) as (-> & -> & ->); apply PI].
-    destruct (trans_pub_view _ _ _ p I T Hl) as [(o & -> & Hpc & Hpc' & Hc)|[(e & -> & Hpc & Hpc' & Hc)|(Hc & Hn & _ & _ & Hlab)]].
+    destruct (trans_pub_view _ _ _ p I T Hl) as [(o & -> & Hpc & Hpc' & Hc)|[(e & -> & Hpc & Hpc' & Hc)|[(Hc & Hn & _ & _ & Hlab)|(-> & Hne & Hpc' & Hc)]]].
     + rewrite EH, pubs_of_app, app_length, Hpc', Hc, count_pb_program. pose proof (p_len st PI p) as L. rewrite Hpc in L. cbn in L.
       unfold pubs_of at 2. cbn [filter h_c h_o]. rewrite Nat.eqb_refl. cbn [andb]. destruct (is_pub_op o); cbn; lia.
-    + rewrite EH, Hpc', Hc. cbn [is_nil]. pose proof (p_len st PI p) as L. rewrite Hpc in L. cbn in L |- *. lia.
-    + rewrite Hc, Hn, <- (p_len st PI p). rewrite EH.
-      destruct Hlab as (c' & [->|(c2 & ord & ->)]); [|reflexivity].
-      destruct (is_nil _); [|reflexivity]. rewrite pubs_of_close. apply map_length.
+    + rewrite (Len p (or_introl eq_refl)), Hpc', Hc. pose proof (p_len st PI p) as L. rewrite Hpc in L. cbn in L |- *. lia.
+    + rewrite (Len p Hlab), Hc, Hn. apply (p_len st PI p).
+    + rewrite EH, pubs_of_app, app_length, Hpc', Hc. unfold pubs_of at 2. cbn [filter h_o is_pub_op]. rewrite andb_false_r. cbn [length].
+      rewrite Nat.add_0_r. apply (p_len st PI p).
   - (* p_begin *)
     intros p e Hin. destruct (label_of_conn p l) eqn:Hl.
     2:{ destruct (Other p Hl) as (E1 & E2 & E3). unfold pub_nth. rewrite E1, E3. rewrite E2 in Hin. now apply PI. }
-    destruct (trans_pub_view _ _ _ p I T Hl) as [(o & -> & Hpc & Hpc' & Hc)|[(e0 & -> & Hpc & Hpc' & Hc)|(Hc & _ & Hb & _ & Hlab)]].
+    destruct (trans_pub_view _ _ _ p I T Hl) as [(o & -> & Hpc & Hpc' & Hc)|[(e0 & -> & Hpc & Hpc' & Hc)|[(Hc & _ & Hb & _ & Hlab)|(-> & Hne & Hpc' & Hc)]]].
     + rewrite Hpc' in Hin. apply program_pubbegin in Hin. subst o.
       exists (mkHop p (OEvent e) (i_now st) None). rewrite EH, Hc. split; [|auto].
       unfold pub_nth. rewrite pubs_of_app. pose proof (p_len st PI p) as L. rewrite Hpc in L. cbn in L.
@@ -282,54 +317,64 @@ Proof.
     + rewrite Hpc' in Hin. destruct Hin as [X|[X|[]]]; discriminate.
     + specialize (Hb e Hin). rewrite Hc. destruct (p_begin st PI p e Hb) as (P & H1 & H2 & H3).
       assert (Hne : c_pc (r_cs (step (i_s st) l) p) <> []) by (intro X; rewrite X in Hin; contradiction).
-      exists P. rewrite EH. destruct Hlab as (c' & [->|(c2 & ord & ->)]); [|auto].
-      cbn in Hl. apply Nat.eqb_eq in Hl. subst c'. apply is_nil_false in Hne. rewrite Hne. auto.
+      exists P. rewrite (Keep p Hlab Hne). auto.
+    + rewrite Hpc' in Hin. rewrite Hc. destruct (p_begin st PI p e Hin) as (P & H1 & H2 & H3).
+      exists P. split; [|auto]. rewrite EH. unfold pub_nth in *. rewrite pubs_of_app, nth_error_app1; [assumption|].
+      apply nth_error_Some. congruence.
   - (* p_cur *)
     intros p e t Hcur. destruct (label_of_conn p l) eqn:Hl.
     2:{ destruct (Other p Hl) as (E1 & E2 & E3). unfold pub_nth. rewrite E1. rewrite E2 in Hcur. now apply PI. }
-    destruct (trans_pub_view _ _ _ p I T Hl) as [(o & -> & Hpc & Hpc' & Hc)|[(e0 & -> & Hpc & Hpc' & Hc)|(Hc & _ & _ & Hb & Hlab)]].
+    destruct (trans_pub_view _ _ _ p I T Hl) as [(o & -> & Hpc & Hpc' & Hc)|[(e0 & -> & Hpc & Hpc' & Hc)|[(Hc & _ & _ & Hb & Hlab)|(-> & Hne & Hpc' & Hc)]]].
     + rewrite Hpc' in Hcur. exfalso. eapply program_no_cur. eassumption.
     + rewrite Hpc' in Hcur. destruct Hcur as (i & [<-|[<-|[]]] & Hp); cbn in Hp; [|contradiction].
       destruct Hp as [<- <-]. cbn [fst snd].
       destruct (p_begin st PI p e0) as (P & H1 & H2 & H3); [rewrite Hpc; now left|].
-      exists P. rewrite EH, Hpc'. cbn [is_nil]. auto.
+      assert (Hne : c_pc (r_cs (step (i_s st) (LRun p)) p) <> []) by (rewrite Hpc'; discriminate).
+      exists P. rewrite (Keep p (or_introl eq_refl) Hne). auto.
     + specialize (Hb e t Hcur). destruct (p_cur st PI p e t Hb) as (P & H0 & H1 & H2 & H3).
       assert (Hne : c_pc (r_cs (step (i_s st) l) p) <> []) by (intro X; rewrite X in Hcur; destruct Hcur as (? & [] & _)).
-      exists P. rewrite EH. destruct Hlab as (c' & [->|(c2 & ord & ->)]); [|auto].
-      cbn in Hl. apply Nat.eqb_eq in Hl. subst c'. apply is_nil_false in Hne. rewrite Hne. auto.
+      exists P. rewrite (Keep p Hlab Hne). auto.
+    + rewrite Hpc' in Hcur. destruct (p_cur st PI p e t Hcur) as (P & H0 & H1 & H2 & H3).
+      exists P. split; [assumption|]. split; [|auto]. rewrite EH. unfold pub_nth in *. rewrite pubs_of_app, nth_error_app1; [assumption|].
+      apply nth_error_Some. congruence.
 Qed.
 
 (* ------------------------------------------------------------------ *)
 (** * Every registry entry belongs to a REQ, and whatever the client has
       issued after that REQ against the same id has not taken effect yet *)
 
-Definition eff_pending (o : op) (sub : str) (pc : list instr) : Prop :=
+(** the effect of operation [o] on subscription [sub] is still to come:
+    its instruction is in the connection's program, or (disconnect of a busy
+    session) the context is cancelled and the loop has not noticed yet *)
+Definition eff_pending (o : op) (sub : str) (pc : list instr) (cancelled : Prop) : Prop :=
   match o with
   | OReq s' _ => s' = sub /\ exists fs, In (ISubAdd sub fs) pc
   | OClose s' => s' = sub /\ In (ISubDel sub) pc
-  | ODisc => In IUnsubAll pc
+  | ODisc => In IUnsubAll pc \/ cancelled
   | _ => False
   end.
 
 Definition eff_instr (i : instr) : bool :=
   match i with ISubAdd _ _ | ISubDel _ | IUnsubAll => true | _ => false end.
 
-Lemma eff_pending_has o sub pc : eff_pending o sub pc -> existsb eff_instr pc = true.
+Lemma eff_pending_has o sub pc (canc : Prop) :
+  eff_pending o sub pc canc -> existsb eff_instr pc = true \/ (o = ODisc /\ canc).
 Proof.
   destruct o; cbn; try contradiction.
-  - intros [_ [fs' H]]. apply existsb_exists. eexists. split; [eassumption | reflexivity].
-  - intros [_ H]. apply existsb_exists. eexists. split; [eassumption | reflexivity].
-  - intro H. apply existsb_exists. eexists. split; [eassumption | reflexivity].
+  - intros [_ [fs' H]]. left. apply existsb_exists. eexists. split; [eassumption | reflexivity].
+  - intros [_ H]. left. apply existsb_exists. eexists. split; [eassumption | reflexivity].
+  - intros [H|H]; [left | right; auto]. apply existsb_exists. eexists. split; [eassumption | reflexivity].
 Qed.
 
-(** [k] is the latest operation of its connection *)
-Definition last_of (H : list hop) (k : hop) : Prop := forall h', In h' H -> h_c h' = h_c k -> h_b h' <= h_b k.
+(** [k] and every later operation of its connection are without end stamp *)
+Definition tail_open (H : list hop) (k : hop) : Prop :=
+  forall h', In h' H -> h_c h' = h_c k -> h_b k <= h_b h' -> h_d h' = None.
 
 Definition AInv (st : istate) : Prop :=
   forall x sub fs, sub_of (i_s st) x sub = Some fs ->
     exists q, In q (i_hops st) /\ h_c q = x /\ h_o q = OReq sub fs /\
       forall k, In k (i_hops st) -> h_c k = x -> h_b q < h_b k -> op_ends (h_o k) sub = true ->
-        eff_pending (h_o k) sub (c_pc (r_cs (i_s st) x)) /\ last_of (i_hops st) k.
+        eff_pending (h_o k) sub (c_pc (r_cs (i_s st) x)) (In x (r_cancel (i_s st))) /\ tail_open (i_hops st) k.
 
 Lemma AInv_init buf : AInv (i_init buf).
 Proof. intros x sub fs H. discriminate. Qed.
@@ -338,13 +383,17 @@ Proof. intros x sub fs H. discriminate. Qed.
 Definition no_new_of (x : conn) (now : Z) (H H' : list hop) : Prop :=
   forall c o, H' = H ++ [mkHop c o now None] -> c <> x.
 
-Lemma AInv_keep_none now H H' x sub fs q (pc' : list instr) :
+(** no operation of [x] gets its end stamp in the step *)
+Definition no_close_of (x : conn) (now : Z) (H H' : list hop) : Prop :=
+  forall h h', In h H -> In h' H' -> same_op h h' -> h_c h = x -> h_d h' = h_d h.
+
+Lemma AInv_keep_none now H H' x sub fs q (pc' : list instr) (canc' : Prop) :
   hchange now H H' -> no_new_of x now H H' ->
   In q H -> h_c q = x -> h_o q = OReq sub fs ->
   (forall k, In k H -> h_c k = x -> h_b q < h_b k -> op_ends (h_o k) sub = true -> False) ->
   exists q', In q' H' /\ h_c q' = x /\ h_o q' = OReq sub fs /\
     forall k, In k H' -> h_c k = x -> h_b q' < h_b k -> op_ends (h_o k) sub = true ->
-      eff_pending (h_o k) sub pc' /\ last_of H' k.
+      eff_pending (h_o k) sub pc' canc' /\ tail_open H' k.
 Proof.
   intros HC NN Hq Hc Ho NL.
   destruct (hchange_fwd now H H' q HC Hq) as (q' & Hq' & (S1 & S2 & S3) & _).
@@ -355,25 +404,33 @@ Proof.
   - apply (NN c o E). exact Hck'.
 Qed.
 
-Lemma AInv_keep_pending now H H' x sub fs q (pc : list instr) :
-  hchange now H H' -> no_new_of x now H H' ->
+Lemma tail_open_keep now H H' x k k' :
+  hchange now H H' -> no_new_of x now H H' -> no_close_of x now H H' ->
+  In k H -> same_op k k' -> h_c k = x -> tail_open H k -> tail_open H' k'.
+Proof.
+  intros HC NN NC Hk (T1 & T2 & T3) Hck TO h' Hh' Hch' Hb.
+  destruct (hchange_bwd now H H' h' HC Hh') as [(h & Hh & (U1 & U2 & U3) & Ev)|(c & o & -> & E)].
+  - rewrite (NC h h' Hh Hh' (conj U1 (conj U2 U3))) by congruence. apply TO; [assumption | congruence | lia].
+  - reflexivity.
+Qed.
+
+Lemma AInv_keep_pending now H H' x sub fs q (pc : list instr) (canc canc' : Prop) :
+  hchange now H H' -> no_new_of x now H H' -> no_close_of x now H H' -> (canc -> canc') ->
   In q H -> h_c q = x -> h_o q = OReq sub fs ->
   (forall k, In k H -> h_c k = x -> h_b q < h_b k -> op_ends (h_o k) sub = true ->
-     eff_pending (h_o k) sub pc /\ last_of H k) ->
+     eff_pending (h_o k) sub pc canc /\ tail_open H k) ->
   exists q', In q' H' /\ h_c q' = x /\ h_o q' = OReq sub fs /\
     forall k, In k H' -> h_c k = x -> h_b q' < h_b k -> op_ends (h_o k) sub = true ->
-      eff_pending (h_o k) sub pc /\ last_of H' k.
+      eff_pending (h_o k) sub pc canc' /\ tail_open H' k.
 Proof.
-  intros HC NN Hq Hc Ho NL.
+  intros HC NN NC Hcc Hq Hc Ho NL.
   destruct (hchange_fwd now H H' q HC Hq) as (q' & Hq' & (S1 & S2 & S3) & _).
   exists q'. split; [assumption|]. split; [congruence|]. split; [congruence|].
   intros k' Hk' Hck' Hb Hends.
   destruct (hchange_bwd now H H' k' HC Hk') as [(k & Hk & (T1 & T2 & T3) & _)|(c & o & -> & E)].
-  - destruct (NL k Hk) as [P L]; try congruence. split; [now rewrite T2|].
-    intros h' Hh' Hch'.
-    destruct (hchange_bwd now H H' h' HC Hh') as [(h & Hh & (U1 & U2 & U3) & _)|(c & o & -> & E)].
-    + rewrite U3, T3. apply L; [assumption | congruence].
-    + exfalso. apply (NN c o E). cbn in Hch'. congruence.
+  - destruct (NL k Hk) as [P L]; try congruence. split.
+    + rewrite T2. destruct (h_o k); cbn in P |- *; auto. destruct P; auto.
+    + eapply tail_open_keep; try eassumption; [repeat split; assumption | congruence].
   - exfalso. apply (NN c o E). exact Hck'.
 Qed.
 
@@ -404,11 +461,11 @@ Proof.
 Qed.
 
 Lemma map_eq_snoc {A B} (f : A -> B) l l0 b :
-  List.map f l = l0 ++ [b] -> exists L h0, l = L ++ [h0] /\ f h0 = b.
+  List.map f l = l0 ++ [b] -> exists L h0, l = L ++ [h0] /\ f h0 = b /\ List.map f L = l0.
 Proof.
   intro E. destruct (@exists_last _ l) as (L & h0 & ->).
   - intro X. subst l. cbn in E. destruct l0; discriminate.
-  - rewrite map_app in E. cbn in E. apply app_inj_tail in E as [_ E]. eauto.
+  - rewrite map_app in E. cbn in E. apply app_inj_tail in E as [E1 E]. eauto.
 Qed.
 
 Lemma istep_no_new st l x :
@@ -416,37 +473,133 @@ Lemma istep_no_new st l x :
   no_new_of x (i_now st) (i_hops st) (i_hops (istep st l)).
 Proof.
   intros T Hno c o E. rewrite (istep_hops_trans st l T) in E.
-  destruct l as [c0 o0|c0|c0 c' ord|c0|c0].
+  destruct l as [c0 o0|c0|c0 c' ord|c0|c0|c0].
   - apply app_inv_head in E. inversion E; subst. intro; subst. eapply Hno. reflexivity.
-  - destruct (is_nil _); apply (f_equal (@length hop)) in E; unfold close_hop in E;
+  - destruct (_ && _); apply (f_equal (@length hop)) in E; unfold close_hop in E;
       rewrite ?map_length, app_length in E; cbn in E; lia.
+  - apply (f_equal (@length hop)) in E. rewrite app_length in E. cbn in E. lia.
   - apply (f_equal (@length hop)) in E. rewrite app_length in E. cbn in E. lia.
   - apply (f_equal (@length hop)) in E. rewrite app_length in E. cbn in E. lia.
   - apply (f_equal (@length hop)) in E. rewrite app_length in E. cbn in E. lia.
 Qed.
 
-Lemma program_pending s c o sub fs :
-  sub_of s c sub = Some fs -> op_ends o sub = true -> eff_pending o sub (program s c o).
+(** the end stamps of [x]'s operations change only when [x]'s own program ends *)
+Lemma istep_no_close st l x :
+  HInv st -> trans (i_s st) l (step (i_s st) l) ->
+  (l <> LRun x \/ c_pc (r_cs (step (i_s st) l) x) <> []) ->
+  no_close_of x (i_now st) (i_hops st) (i_hops (istep st l)).
+Proof.
+  intros HI T Hl h h' Hh Hh' (S1 & S2 & S3) Hc. rewrite (istep_hops_trans st l T) in Hh'.
+  assert (Same : In h' (i_hops st) -> h_d h' = h_d h).
+  { intro Hin. assert (h' = h) by (eapply hop_eq_of_b; [apply HI | assumption | assumption | assumption]). congruence. }
+  destruct l as [c0 o0|c0|c0 c' ord|c0|c0|c0]; auto.
+  - apply in_app_iff in Hh' as [Hin|[<-|[]]]; [now apply Same|]. cbn in S3. destruct (h_time st HI h Hh). lia.
+  - destruct (negb _ && is_nil (c_pc (r_cs (step (i_s st) (LRun c0)) c0))) eqn:En; [|now apply Same].
+    apply in_map_iff in Hh' as [h0 [<- Hh0]]. rewrite close1_b in S3.
+    assert (h0 = h) by (eapply hop_eq_of_b; [apply HI | assumption | assumption | assumption]). subst h0.
+    apply close1_some || idtac. destruct (Nat.eq_dec c0 x) as [->|N].
+    + exfalso. apply andb_true_iff in En as [_ En]. apply is_nil_true in En. destruct Hl as [Hl|Hl]; [now apply Hl | contradiction].
+    + now rewrite close1_other by congruence.
+Qed.
+
+Lemma program_pending s c o sub fs (canc : Prop) :
+  sub_of s c sub = Some fs -> op_ends o sub = true -> eff_pending o sub (program s c o) canc.
 Proof.
   intros Hs He. apply sub_of_reg_get in Hs as (m & Hg & _).
   destruct o; cbn in *; try discriminate; rewrite ?Hg.
   - apply str_eqb_eq in He. subst. split; [reflexivity|]. eexists. now left.
   - apply str_eqb_eq in He. subst. split; [reflexivity|]. now left.
-  - now left.
+  - left. now left.
 Qed.
 
-Lemma AInv_actor_noeff st (H' : list hop) x sub fs pc' :
-  AInv st -> sub_of (i_s st) x sub = Some fs ->
-  existsb eff_instr (c_pc (r_cs (i_s st) x)) = false ->
+(** when nothing in the connection's program can touch the subscription, the
+    only thing pending against it is the cancellation *)
+Lemma AInv_actor_canc buf st (H' : list hop) x sub fs pc' :
+  reachable buf (i_s st) -> HInv st -> AInv st -> sub_of (i_s st) x sub = Some fs ->
+  (forall o, op_ends o sub = true -> eff_pending o sub (c_pc (r_cs (i_s st) x)) False -> False) ->
   hchange (i_now st) (i_hops st) H' -> no_new_of x (i_now st) (i_hops st) H' ->
+  (forall k k', In k (i_hops st) -> In k' H' -> same_op k k' -> h_c k = x -> is_disc (h_o k) = true -> h_d k' = h_d k) ->
+  forall canc' : Prop, (In x (r_cancel (i_s st)) -> canc') ->
   exists q', In q' H' /\ h_c q' = x /\ h_o q' = OReq sub fs /\
     forall k, In k H' -> h_c k = x -> h_b q' < h_b k -> op_ends (h_o k) sub = true ->
-      eff_pending (h_o k) sub pc' /\ last_of H' k.
+      eff_pending (h_o k) sub pc' canc' /\ tail_open H' k.
 Proof.
-  intros AI Hs Hne HC NN. destruct (AI x sub fs Hs) as (q & Hq & Hc & Ho & Hk).
-  eapply AInv_keep_none; try eassumption.
-  intros k Hin Hck Hb He. destruct (Hk k Hin Hck Hb He) as [P _].
-  apply eff_pending_has in P. congruence.
+  intros R HI AI Hs NoPc HC NN ND canc' Hcc. pose proof (Inv_reachable buf _ R) as I.
+  destruct (AI x sub fs Hs) as (q & Hq & Hc & Ho & Hk).
+  destruct (hchange_fwd _ _ _ q HC Hq) as (q' & Hq' & (S1 & S2 & S3) & _).
+  exists q'. split; [assumption|]. split; [congruence|]. split; [congruence|].
+  intros k' Hk' Hck' Hb Hends.
+  destruct (hchange_bwd _ _ _ k' HC Hk') as [(k & Hin & (T1 & T2 & T3) & Evk)|(c & o & -> & E)];
+    [|exfalso; apply (NN c o E); exact Hck'].
+  destruct (Hk k Hin) as [P TO]; try congruence.
+  (* the pending operation is the disconnect *)
+  rewrite T2 in Hends |- *.
+  assert (Hdisc : h_o k = ODisc /\ In x (r_cancel (i_s st))).
+  { destruct (h_o k) eqn:Eo; cbn in P; try contradiction.
+    - exfalso. apply (NoPc (OReq sub0 fs0)); [exact Hends | exact P].
+    - exfalso. apply (NoPc (OClose sub0)); [exact Hends | exact P].
+    - destruct P as [P|P]; [exfalso; apply (NoPc ODisc); [reflexivity | now left] | auto]. }
+  destruct Hdisc as [Eo Hcan]. rewrite Eo. split; [right; auto|].
+  assert (Hkd : is_disc (h_o k) = true) by (now rewrite Eo).
+  destruct (h_disc st HI k Hin Hkd) as (Last & _ & Fin).
+  assert (Hdk : h_d k = None).
+  { destruct (h_d k) eqn:Ed; [|reflexivity]. exfalso. destruct Fin as [_ Fd]; [congruence|].
+    assert (Ex : h_c k = x) by congruence. rewrite Ex in Fd. rewrite (inv_cancel _ I x Hcan) in Fd. discriminate. }
+  intros h' Hh' Hch' Hbh.
+  destruct (hchange_bwd _ _ _ h' HC Hh') as [(h & Hh & (U1 & U2 & U3) & _)|(c & o & -> & E)]; [|reflexivity].
+  assert (h = k).
+  { eapply hop_eq_of_b; [apply HI | assumption | assumption|].
+    assert (h_b h <= h_b k) by (apply Last; [assumption | congruence]). lia. }
+  subst h. rewrite (ND k h' Hin Hh' (conj U1 (conj U2 U3))) by congruence. exact Hdk.
+Qed.
+Lemma SSorted_mid {A} (R : A -> A -> Prop) l1 a l2 :
+  StronglySorted R (l1 ++ a :: l2) -> Forall (fun b => R b a) l1 /\ Forall (R a) l2.
+Proof.
+  induction l1 as [|x l1 IH]; cbn; intro S.
+  - inversion S; subst. split; [constructor | assumption].
+  - inversion S as [|? ? S1 F]; subst. destruct (IH S1) as [I1 I2]. split; [|assumption].
+    constructor; [|assumption]. apply Forall_app in F as [_ F]. now inversion F.
+Qed.
+
+(** the hop of a cancelled session's disconnect is its last one, and open *)
+Lemma cancel_hop_tail_open buf st k :
+  reachable buf (i_s st) -> HInv st -> In k (i_hops st) -> is_disc (h_o k) = true ->
+  In (h_c k) (r_cancel (i_s st)) -> tail_open (i_hops st) k.
+Proof.
+  intros R HI Hk Hd Hcan. pose proof (Inv_reachable buf _ R) as I.
+  destruct (h_disc st HI k Hk Hd) as (Last & _ & Fin).
+  assert (Hdk : h_d k = None).
+  { destruct (h_d k) eqn:Ed; [|reflexivity]. exfalso. destruct Fin as [_ Fd]; [congruence|].
+    rewrite (inv_cancel _ I _ Hcan) in Fd. discriminate. }
+  intros h' Hh' Hch' Hbh.
+  assert (h' = k); [|congruence].
+  eapply hop_eq_of_b; [apply HI | assumption | assumption|]. specialize (Last h' Hh' Hch'). lia.
+Qed.
+
+(** the operation the recv loop accepted last: its hop is the last one of the
+    connection, except for the hop of a cancellation *)
+Lemma last_op_hop buf st x ops0 o :
+  reachable buf (i_s st) -> HInv st -> c_ops (r_cs (i_s st) x) = ops0 ++ [o] ->
+  exists q, In q (i_hops st) /\ h_c q = x /\ h_o q = o /\
+    forall h', In h' (i_hops st) -> h_c h' = x -> h_b q < h_b h' -> is_disc (h_o h') = true /\ In x (r_cancel (i_s st)).
+Proof.
+  intros R HI Eo. pose proof (h_ops st HI x) as Eops. rewrite Eo in Eops. unfold cancel_tail in Eops.
+  assert (S' : StronglySorted (fun a b => h_b a < h_b b) (xops x (i_hops st))) by (unfold xops; apply SSorted_filter_gen, HI).
+  destruct (mem_conn x (r_cancel (i_s st))) eqn:Hcan.
+  - destruct (map_eq_snoc _ _ _ _ Eops) as (L1 & kd & EL1 & Ekd & Eops1).
+    destruct (map_eq_snoc _ _ _ _ Eops1) as (L & q & EL & Eq & _). subst L1.
+    assert (Hq : In q (i_hops st) /\ h_c q = x).
+    { apply xops_In. rewrite EL1. apply in_or_app. left. apply in_or_app. right. now left. }
+    exists q. split; [apply Hq|]. split; [apply Hq|]. split; [assumption|].
+    intros h' Hh' Hc' Hb. split; [|now apply mem_conn_In].
+    assert (Hx : In h' (xops x (i_hops st))) by (apply xops_In; auto).
+    rewrite EL1, <- app_assoc in Hx, S'. cbn [app] in Hx, S'.
+    destruct (SSorted_mid _ _ _ _ S') as [F1 F2]. rewrite Forall_forall in F1.
+    apply in_app_iff in Hx as [Hx|[<-|[<-|[]]]]; [specialize (F1 _ Hx); cbn in F1; lia | lia | now rewrite Ekd].
+  - rewrite app_nil_r in Eops. destruct (map_eq_snoc _ _ _ _ Eops) as (L & q & EL & Eq & _).
+    destruct (xops_last_is_last _ _ _ _ (h_sorted st HI) EL) as (Hin0 & Hc0 & Hlast).
+    exists q. split; [assumption|]. split; [assumption|]. split; [assumption|].
+    intros h' Hh' Hc' Hb. exfalso. specialize (Hlast h' Hh' Hc'). lia.
 Qed.
 
 Theorem AInv_step buf st l : reachable buf (i_s st) -> HInv st -> AInv st -> AInv (istep st l).
@@ -465,25 +618,54 @@ Proof.
     rewrite (trans_pc_other _ _ _ _ T Hl).
     destruct (AI x sub fs Hs0) as (q & Hq & Hc & Ho & Hk).
     eapply AInv_keep_pending; try eassumption.
-    apply istep_no_new; [assumption|]. intros o ->. cbn in Hl. now rewrite Nat.eqb_refl in Hl. }
+    - apply istep_no_new; [assumption|]. intros o ->. cbn in Hl. now rewrite Nat.eqb_refl in Hl.
+    - apply istep_no_close; auto.
+    - (* the cancel list, as far as x is concerned *)
+      intro Hc0. destruct (trans_cancel _ _ _ T) as [Ec|[(c & El & _ & Ec & _)|(c & El & _ & _ & Ec)]]; rewrite Ec; auto.
+      + now right.
+      + apply remove_conn_In. split; [|assumption]. intros ->. subst l. cbn in Hl. now rewrite Nat.eqb_refl in Hl. }
   assert (Hact : forall c, label_of_conn x (LRun c) = true -> x = c)
     by (intros c H; cbn in H; now apply Nat.eqb_eq in H).
-  assert (NNrun : forall c, l = LRun c -> no_new_of x (i_now st) (i_hops st) (i_hops (istep st l))).
-  { intros c ->. apply istep_no_new; [assumption | discriminate]. }
   assert (NNall : (forall o, l <> LOp x o) -> no_new_of x (i_now st) (i_hops st) (i_hops (istep st l)))
     by (now apply istep_no_new).
+  (* the end stamps of x's disconnects do not change unless the deferred UnsubscribeAll runs *)
+  assert (NDall : (forall rest, c_pc (r_cs (i_s st) x) <> IUnsubAll :: rest) ->
+            forall k k', In k (i_hops st) -> In k' (i_hops (istep st l)) -> same_op k k' -> h_c k = x ->
+                         is_disc (h_o k) = true -> h_d k' = h_d k).
+  { intros Hnu k k' Hk Hk' (S1 & S2 & S3) Hc Hd. rewrite EH in Hk'.
+    assert (Same : In k' (i_hops st) -> h_d k' = h_d k).
+    { intro Hin. assert (k' = k) by (eapply hop_eq_of_b; [apply HI | assumption | assumption | assumption]). congruence. }
+    destruct l as [c0 o0|c0|c0 c' ord|c0|c0|c0]; auto.
+    - apply in_app_iff in Hk' as [Hin|[<-|[]]]; [now apply Same|]. cbn in S3. destruct (h_time st HI k Hk). lia.
+    - destruct (_ && _) eqn:En; [|now apply Same].
+      apply in_map_iff in Hk' as [k0 [<- Hk0]]. rewrite close1_b in S3.
+      assert (k0 = k) by (eapply hop_eq_of_b; [apply HI | assumption | assumption | assumption]). subst k0.
+      destruct (is_unsub_head (c_pc (r_cs (i_s st) c0))) eqn:Eu.
+      + destruct (Nat.eq_dec c0 x) as [->|N]; [|now rewrite close1_other by congruence].
+        exfalso. destruct (c_pc (r_cs (i_s st) x)) as [|i0 r0]; [discriminate|]. destruct i0; try discriminate. eapply Hnu. reflexivity.
+      + rewrite close1_kind; [reflexivity | now rewrite Hd]. }
+  (* the cases in which only the cancellation can be pending *)
+  assert (Canc : forall pc', sub_of (i_s st) x sub = Some fs ->
+            (forall o, op_ends o sub = true -> eff_pending o sub (c_pc (r_cs (i_s st) x)) False -> False) ->
+            (forall o, l <> LOp x o) -> (forall rest, c_pc (r_cs (i_s st) x) <> IUnsubAll :: rest) ->
+            (In x (r_cancel (i_s st)) -> In x (r_cancel (step (i_s st) l))) ->
+            exists q', In q' (i_hops (istep st l)) /\ h_c q' = x /\ h_o q' = OReq sub fs /\
+              forall k, In k (i_hops (istep st l)) -> h_c k = x -> h_b q' < h_b k -> op_ends (h_o k) sub = true ->
+                eff_pending (h_o k) sub pc' (In x (r_cancel (step (i_s st) l))) /\ tail_open (i_hops (istep st l)) k).
+  { intros pc' Hs0 NoPc Hno Hnu Hcc. eapply AInv_actor_canc; try eassumption; [now apply NNall | now apply NDall]. }
   remember (step (i_s st) l) as s' eqn:Es'. clear Es'.
   inversion T; subst; cbn [label_of_conn] in Hl; try discriminate; try (apply Hact in Hl; subst x);
-    cbn [r_cs with_cs] in *.
+    cbn [r_cs r_cancel with_cs start_visit] in *.
   - (* op *)
     rewrite sub_of_with_cs in Hs. rewrite upd_same. cbn [c_pc].
     destruct (AI c sub fs Hs) as (q & Hq & Hc & Ho & Hk).
     rewrite EH. exists q. split; [apply in_or_app; now left|]. split; [assumption|]. split; [assumption|].
     intros k Hin Hck Hb He. apply in_app_iff in Hin as [Hin|[<-|[]]].
-    + exfalso. destruct (Hk k Hin Hck Hb He) as [P _]. rewrite H in P. apply eff_pending_has in P. discriminate.
+    + exfalso. destruct (Hk k Hin Hck Hb He) as [P _]. rewrite H in P.
+      destruct (eff_pending_has _ _ _ _ P) as [X|[_ X]]; [discriminate | contradiction].
     + cbn [h_o]. split; [now apply (program_pending _ _ _ _ fs)|].
-      intros h' Hin' _. apply in_app_iff in Hin' as [Hin'|[<-|[]]]; [|cbn; lia].
-      destruct (h_time st HI h' Hin'). cbn. lia.
+      intros h' Hin' _ Hbh. cbn [h_b] in Hbh. apply in_app_iff in Hin' as [Hin'|[<-|[]]]; [|reflexivity].
+      destruct (h_time st HI h' Hin'). lia.
   - (* regadd *) rewrite sub_of_mk, reg_get_set_same in Hs. discriminate.
   - (* subadd *)
     rewrite sub_of_mk, reg_get_set_same in Hs. rewrite upd_same. cbn [c_pc set_pc].
@@ -492,21 +674,19 @@ Proof.
     destruct (pc_ok_inv_subadd_last _ _ _ _ _ P) as (ops0 & Eo).
     destruct (str_dec sub sub0) as [->|N].
     + rewrite assoc_sm_set_same in Hs. inversion Hs; subst fs0.
-      pose proof (h_ops st HI c) as Eops. rewrite Eo in Eops.
-      destruct (map_eq_snoc _ _ _ _ Eops) as (L & h0 & EL & Eh0).
-      destruct (xops_last_is_last _ _ _ _ (h_sorted st HI) EL) as (Hin0 & Hc0 & Hlast).
-      rewrite EH. rewrite upd_same. cbn [c_pc set_pc is_nil].
-      exists h0. split; [assumption|]. split; [assumption|]. split; [assumption|].
-      intros k Hk1 Hk2 Hk3 _. exfalso. specialize (Hlast k Hk1 Hk2). lia.
+      assert (EHs : i_hops (istep st (LRun c)) = i_hops st) by (rewrite EH, H, upd_same; reflexivity).
+      destruct (last_op_hop buf st c ops0 _ R HI Eo) as (q & Hq & Hcq & Hoq & Hlater).
+      rewrite EHs. exists q. split; [assumption|]. split; [assumption|]. split; [assumption|].
+      intros k Hk1 Hk2 Hk3 _. destruct (Hlater k Hk1 Hk2 Hk3) as [Hd Hcan].
+      assert (TO : tail_open (i_hops st) k) by (eapply cancel_hop_tail_open; try eassumption; now rewrite Hk2).
+      destruct (h_o k); try discriminate. split; [right; exact Hcan | exact TO].
     + rewrite assoc_sm_set_other in Hs by assumption.
       assert (Hs0 : sub_of (i_s st) c sub = Some fs) by (unfold sub_of; now rewrite H1).
-      destruct (AI c sub fs Hs0) as (q & Hq & Hc & Ho & Hk).
-      eapply AInv_keep_none; try eassumption; [now apply (NNrun c)|].
-      intros k Hin Hck Hb He. destruct (Hk k Hin Hck Hb He) as [Pd _]. rewrite H in Pd.
-      destruct (h_o k); cbn in Pd; try contradiction.
+      apply Canc; auto; try discriminate; [|rewrite H; discriminate].
+      intros o He Pd. rewrite H in Pd. destruct o; cbn in Pd; try contradiction.
       * destruct Pd as [-> [fs' [X|[X|[]]]]]; [inversion X; congruence | discriminate].
       * destruct Pd as [-> [X|[X|[]]]]; discriminate.
-      * destruct Pd as [X|[X|[]]]; discriminate.
+      * destruct Pd as [[X|[X|[]]]|[]]; discriminate.
   - (* subadd_none *) rewrite sub_of_with_cs in Hs. unfold sub_of in Hs. rewrite H1 in Hs. discriminate.
   - (* subdel *)
     rewrite sub_of_mk, reg_get_set_same in Hs. rewrite upd_same. cbn [c_pc set_pc].
@@ -514,44 +694,84 @@ Proof.
     destruct (str_dec sub sub0) as [->|N]; [rewrite assoc_sm_del_same in Hs; discriminate|].
     rewrite assoc_sm_del_other in Hs by assumption.
     assert (Hs0 : sub_of (i_s st) c sub = Some fs) by (unfold sub_of; now rewrite H1).
-    destruct (AI c sub fs Hs0) as (q & Hq & Hc & Ho & Hk).
-    eapply AInv_keep_none; try eassumption; [now apply (NNrun c)|].
-    intros k Hin Hck Hb He. destruct (Hk k Hin Hck Hb He) as [Pd _]. rewrite H in Pd.
-    destruct (h_o k); cbn in Pd; try contradiction.
+    apply Canc; auto; try discriminate; [|rewrite H; discriminate].
+    intros o He Pd. rewrite H in Pd. destruct o; cbn in Pd; try contradiction.
     + destruct Pd as [-> [fs' [X|[]]]]; discriminate.
     + destruct Pd as [-> [X|[]]]. inversion X. congruence.
-    + destruct Pd as [X|[]]; discriminate.
+    + destruct Pd as [[X|[]]|[]]; discriminate.
   - (* subdel_none *) rewrite sub_of_with_cs in Hs. unfold sub_of in Hs. rewrite H1 in Hs. discriminate.
   - (* reply *)
-    rewrite sub_of_with_cs in Hs.
-    eapply AInv_actor_noeff; try eassumption; [|now apply (NNrun c)].
-    pose proof (inv_pc _ I c) as P. rewrite H in P |- *.
-    destruct i; cbn in H0; try contradiction.
-    + destruct (pc_ok_inv_eose _ _ _ _ P) as [-> _]. reflexivity.
-    + rewrite (pc_ok_inv_count _ _ _ _ P). reflexivity.
-    + rewrite (pc_ok_inv_ok _ _ _ _ P). reflexivity.
+    rewrite sub_of_with_cs in Hs. rewrite upd_same. cbn [c_pc set_pc push_out].
+    apply Canc; auto; try discriminate.
+    + intros o He Pd. destruct (eff_pending_has _ _ _ _ Pd) as [X|[_ []]]. rewrite H in X.
+      pose proof (inv_pc _ I c) as P. rewrite H in P. destruct i; cbn in H0; try contradiction.
+      * destruct (pc_ok_inv_eose _ _ _ _ P) as [-> _]. discriminate.
+      * rewrite (pc_ok_inv_count _ _ _ _ P) in X. discriminate.
+      * rewrite (pc_ok_inv_ok _ _ _ _ P) in X. discriminate.
+    + rewrite H. intros rest0 X. inversion X; subst. cbn in H0. contradiction.
   - (* pubbegin *)
-    rewrite sub_of_mk in Hs. eapply AInv_actor_noeff; try eassumption; [|now apply (NNrun c)].
-    pose proof (inv_pc _ I c) as P. rewrite H in P |- *. rewrite (pc_ok_inv_pubbegin _ _ _ _ P). reflexivity.
+    rewrite sub_of_mk in Hs. rewrite upd_same. cbn [c_pc].
+    apply Canc; auto; try discriminate; [|rewrite H; discriminate].
+    intros o He Pd. destruct (eff_pending_has _ _ _ _ Pd) as [X|[_ []]]. rewrite H in X.
+    pose proof (inv_pc _ I c) as P. rewrite H in P. rewrite (pc_ok_inv_pubbegin _ _ _ _ P) in X. discriminate.
   - (* pubend *)
-    rewrite sub_of_mk in Hs. eapply AInv_actor_noeff; try eassumption; [|now apply (NNrun c)].
-    pose proof (inv_pc _ I c) as P. rewrite H in P |- *.
-    destruct (pc_ok_inv_pub _ _ _ _ _ _ P) as (n & id & _ & -> & _). reflexivity.
+    rewrite sub_of_mk in Hs. rewrite upd_same. cbn [c_pc set_pc].
+    apply Canc; auto; try discriminate; [|rewrite H; discriminate].
+    intros o He Pd. destruct (eff_pending_has _ _ _ _ Pd) as [X|[_ []]]. rewrite H in X.
+    pose proof (inv_pc _ I c) as P. rewrite H in P.
+    destruct (pc_ok_inv_pub _ _ _ _ _ _ P) as (n & id & _ & -> & _). discriminate.
   - (* visit *)
     assert (x = c) by (destruct H1 as [->|[-> _]]; cbn in Hl; now apply Nat.eqb_eq in Hl). subst x.
-    rewrite sub_of_start_visit in Hs. eapply AInv_actor_noeff; try eassumption.
-    + pose proof (inv_pc _ I c) as P. rewrite H in P |- *.
-      destruct (pc_ok_inv_pub _ _ _ _ _ _ P) as (n & id & _ & -> & _). reflexivity.
-    + apply NNall. destruct H1 as [->|[-> _]]; discriminate.
+    rewrite sub_of_start_visit in Hs.
+    apply Canc; auto; [| destruct H1 as [->|[-> _]]; discriminate | rewrite H; discriminate].
+    intros o He Pd. destruct (eff_pending_has _ _ _ _ Pd) as [X|[_ []]]. rewrite H in X.
+    pose proof (inv_pc _ I c) as P. rewrite H in P.
+    destruct (pc_ok_inv_pub _ _ _ _ _ _ P) as (n & id & _ & -> & _). discriminate.
   - (* visitend *)
-    rewrite sub_of_with_cs in Hs. eapply AInv_actor_noeff; try eassumption; [|now apply (NNrun c)].
-    pose proof (inv_pc _ I c) as P. rewrite H in P |- *.
-    destruct (pc_ok_inv_visit _ _ _ _ _ _ _ P) as (n & rem & id & _ & -> & _). reflexivity.
+    rewrite sub_of_with_cs in Hs.
+    apply Canc; auto; try discriminate; [|rewrite H; discriminate].
+    intros o He Pd. destruct (eff_pending_has _ _ _ _ Pd) as [X|[_ []]]. rewrite H in X.
+    pose proof (inv_pc _ I c) as P. rewrite H in P.
+    destruct (pc_ok_inv_visit _ _ _ _ _ _ _ P) as (n & rem & id & _ & -> & _). discriminate.
   - (* send *)
-    rewrite sub_of_with_cs in Hs. eapply AInv_actor_noeff; try eassumption; [|now apply (NNrun c)].
-    pose proof (inv_pc _ I c) as P. rewrite H in P |- *.
-    destruct (pc_ok_inv_visit _ _ _ _ _ _ _ P) as (n & rem & id & _ & -> & _). reflexivity.
+    rewrite sub_of_with_cs in Hs.
+    apply Canc; auto; try discriminate; [|rewrite H; discriminate].
+    intros o He Pd. destruct (eff_pending_has _ _ _ _ Pd) as [X|[_ []]]. rewrite H in X.
+    pose proof (inv_pc _ I c) as P. rewrite H in P.
+    destruct (pc_ok_inv_visit _ _ _ _ _ _ _ P) as (n & rem & id & _ & -> & _). discriminate.
   - (* unsuball *) rewrite sub_of_mk, reg_get_del_same in Hs. discriminate.
+  - (* cancel: the disconnect becomes pending against every subscription of c *)
+    rewrite sub_of_mk in Hs.
+    assert (Hs0 : sub_of (i_s st) c sub = Some fs) by exact Hs.
+    destruct (AI c sub fs Hs0) as (q & Hq & Hc & Ho & Hk).
+    rewrite EH. exists q. split; [apply in_or_app; now left|]. split; [assumption|]. split; [assumption|].
+    intros k Hin Hck Hb He. apply in_app_iff in Hin as [Hin|[<-|[]]].
+    + destruct (Hk k Hin Hck Hb He) as [Pd TO]. split.
+      * destruct (h_o k); cbn in Pd |- *; auto; try (destruct Pd as [Pd|Pd]; [now left | right; now right]).
+      * intros h' Hin' Hc' Hbh. apply in_app_iff in Hin' as [Hin'|[<-|[]]]; [now apply TO | reflexivity].
+    + cbn [h_o]. split; [right; now left|].
+      intros h' Hin' _ Hbh. cbn [h_b] in Hbh. apply in_app_iff in Hin' as [Hin'|[<-|[]]]; [|reflexivity].
+      destruct (h_time st HI h' Hin'). lia.
+  - (* skip *)
+    rewrite sub_of_with_cs in Hs. rewrite upd_same. cbn [c_pc set_pc].
+    apply Canc; auto; try discriminate.
+    + intros o He Pd. destruct (eff_pending_has _ _ _ _ Pd) as [X|[_ []]]. rewrite H in X.
+      pose proof (inv_pc _ I c) as P. rewrite H in P. destruct i; cbn in H0; try contradiction.
+      * destruct (pc_ok_inv_eose _ _ _ _ P) as [-> _]. discriminate.
+      * rewrite (pc_ok_inv_count _ _ _ _ P) in X. discriminate.
+      * rewrite (pc_ok_inv_ok _ _ _ _ P) in X. discriminate.
+    + rewrite H. intros rest0 X. inversion X; subst. cbn in H0. contradiction.
+  - (* defer: what was pending as a cancellation is now the deferred UnsubscribeAll *)
+    rewrite sub_of_mk in Hs. rewrite upd_same. cbn [c_pc].
+    assert (Hs0 : sub_of (i_s st) c sub = Some fs) by exact Hs.
+    assert (EHs : i_hops (istep st (LRun c)) = i_hops st) by (rewrite EH, H; reflexivity).
+    destruct (AI c sub fs Hs0) as (q & Hq & Hc & Ho & Hk).
+    rewrite EHs. exists q. split; [assumption|]. split; [assumption|]. split; [assumption|].
+    intros k Hin Hck Hb He. destruct (Hk k Hin Hck Hb He) as [Pd TO]. split; [|assumption].
+    rewrite H in Pd. destruct (h_o k); cbn in Pd |- *; try contradiction.
+    + destruct Pd as [_ [? []]].
+    + destruct Pd as [_ []].
+    + left. now left.
 Qed.
 
 (* ------------------------------------------------------------------ *)
@@ -559,7 +779,7 @@ Qed.
 
 Lemma ends_sub_inv x sub l : ends_sub x sub l = true -> exists o, l = LOp x o /\ op_ends o sub = true.
 Proof.
-  destruct l as [c o|c|c c' ord|c|c]; cbn; try discriminate.
+  destruct l as [c o|c|c c' ord|c|c|c]; cbn; try discriminate.
   destruct o; try discriminate; intro H.
   - apply andb_true_iff in H as [H1 H2]. apply Nat.eqb_eq in H1. subst c. eexists. split; [reflexivity | exact H2].
   - apply andb_true_iff in H as [H1 H2]. apply Nat.eqb_eq in H1. subst c. eexists. split; [reflexivity | exact H2].
@@ -575,31 +795,30 @@ Qed.
 Lemma hop_closed_now st l q q' d :
   HInv st -> trans (i_s st) l (step (i_s st) l) ->
   In q (i_hops st) -> h_d q = None -> In q' (i_hops (istep st l)) -> same_op q q' -> h_d q' = Some d ->
-  l = LRun (h_c q) /\ c_pc (r_cs (step (i_s st) l) (h_c q)) = [] /\ d = i_now st.
+  l = LRun (h_c q) /\ c_pc (r_cs (i_s st) (h_c q)) <> [] /\ c_pc (r_cs (step (i_s st) l) (h_c q)) = [] /\ d = i_now st /\
+  is_unsub_head (c_pc (r_cs (i_s st) (h_c q))) = is_disc (h_o q).
 Proof.
   intros HI T Hq Hd Hq' (S1 & S2 & S3) Hd'. rewrite (istep_hops_trans st l T) in Hq'.
   assert (Same : In q' (i_hops st) -> False).
   { intro Hin. assert (q' = q) by (eapply hop_eq_of_b; [apply HI | assumption | assumption | assumption]). congruence. }
-  destruct l as [c o|c|c c' ord|c|c]; try (exfalso; now apply Same).
+  destruct l as [c o|c|c c' ord|c|c|c]; try (exfalso; now apply Same).
   - exfalso. apply in_app_iff in Hq' as [Hin|[<-|[]]]; [now apply Same | discriminate].
-  - destruct (is_nil _) eqn:En; [|exfalso; now apply Same].
+  - destruct (negb _ && _) eqn:En; [|exfalso; now apply Same].
     apply in_map_iff in Hq' as [q0 [<- Hq0]].
     assert (q0 = q).
     { eapply hop_eq_of_b; [apply HI | assumption | assumption |]. rewrite close1_b in S3. exact S3. }
-    subst q0. destruct (close1_d c (i_now st) q) as [E|(_ & E & Ec & _)]; [congruence|].
-    rewrite E in Hd'. inversion Hd'. subst c. apply is_nil_true in En. auto.
+    subst q0. destruct (close1_d (is_unsub_head (c_pc (r_cs (i_s st) c))) c (i_now st) q) as [E|(_ & E & Ec & _ & Ek)]; [congruence|].
+    rewrite E in Hd'. inversion Hd'. subst c. apply andb_true_iff in En as [En1 En2].
+    apply negb_true_iff, is_nil_false in En1. apply is_nil_true in En2. auto.
 Qed.
 
-Lemma last_hop_op st x q ops0 o :
-  HInv st -> In q (i_hops st) -> h_c q = x -> last_of (i_hops st) q ->
-  c_ops (r_cs (i_s st) x) = ops0 ++ [o] -> h_o q = o.
+(** a cancelled session has a disconnect among its operations *)
+Lemma cancel_hop_exists st x :
+  HInv st -> In x (r_cancel (i_s st)) -> exists kd, In kd (i_hops st) /\ h_c kd = x /\ h_o kd = ODisc.
 Proof.
-  intros HI Hq Hc Hl Eo. pose proof (h_ops st HI x) as Eops. rewrite Eo in Eops.
-  destruct (map_eq_snoc _ _ _ _ Eops) as (L & h0 & EL & Eh0).
-  destruct (xops_last_is_last _ _ _ _ (h_sorted st HI) EL) as (Hin0 & Hc0 & Hlast).
-  assert (q = h0); [|congruence].
-  eapply hop_eq_of_b; [apply HI | assumption | assumption |].
-  specialize (Hlast q Hq Hc). specialize (Hl h0 Hin0). rewrite Hc0, Hc in Hl. specialize (Hl eq_refl). lia.
+  intros HI Hc. pose proof (h_ops st HI x) as E. unfold cancel_tail in E. apply mem_conn_In in Hc. rewrite Hc in E.
+  assert (Hin : In ODisc (List.map h_o (xops x (i_hops st)))) by (rewrite E; apply in_or_app; right; now left).
+  apply in_map_iff in Hin as (kd & Ho & Hin). apply xops_In in Hin as [Hin Hcx]. eauto.
 Qed.
 
 Definition KInv (st : istate) : Prop :=
@@ -634,18 +853,37 @@ Proof.
     specialize (Prem _ Hnew). cbn in Prem. rewrite S1, S3 in Prem.
     destruct (h_time st HI q Hq) as [Hb _]. rewrite Prem in Ho; [discriminate | reflexivity | lia].
   - (* it ends now *)
-    destruct (hop_closed_now st l q q' dq' HI T Hq Hd Hq' (conj S1 (conj S2 S3)) Hd') as (-> & Hpc' & ->).
+    destruct (hop_closed_now st l q q' dq' HI T Hq Hd Hq' (conj S1 (conj S2 S3)) Hd') as (-> & Hne & Hpc' & -> & Hu).
+    assert (Hoq : h_o q = OReq sub fs) by congruence. rewrite Hoq in Hu. cbn in Hu.
     assert (Hl : label_of_conn (h_c q) (LRun (h_c q)) = true) by (cbn; apply Nat.eqb_refl).
-    destruct (trans_pc_actor _ _ _ _ I T Hl) as [(o & El & _)|(i & rest & heads & Hpc & Hpc2 & _)]; [discriminate|].
+    destruct (trans_pc_actor _ _ _ _ I T Hl) as [(o & _ & X & _)|[(i & rest & heads & Hpc & Hpc2 & _)|(X & _)]];
+      [contradiction | | discriminate].
     rewrite Hpc' in Hpc2. symmetry in Hpc2. apply app_eq_nil in Hpc2 as [-> ->].
-    assert (Hne : c_pc (r_cs (i_s st) (h_c q)) <> []) by (rewrite Hpc; discriminate).
     destruct (LOInv_reachable buf _ R _ Hne) as (ops0 & o & pre & Eo & Ep).
     rewrite Hpc in Ep. destruct pre as [|i0 pre]; [|destruct pre; discriminate]. cbn in Ep. inversion Ep; subst i.
-    assert (Hc : is_close (h_o q) = false) by (rewrite <- S2, Ho'; reflexivity).
-    destruct (h_open st HI q Hq Hd Hc) as [_ Hlast].
-    assert (Eoq : h_o q = o) by (eapply last_hop_op; eauto).
-    rewrite <- S2, Ho' in Eoq. subst o. cbn in Hpc.
-    destruct (req_end_established buf _ _ sub R Hpc) as (fs' & ops1 & Eo1 & Est & _).
+    (* the operation whose last instruction runs is this REQ *)
+    destruct (last_op_hop buf st (h_c q) ops0 o R HI Eo) as (q0 & Hq0 & Hcq0 & Hoq0 & Hlater).
+    assert (Hnd : is_disc o = false) by (destruct o; try reflexivity; rewrite Hpc in Hu; discriminate).
+    assert (Hc : is_close (h_o q) = false) by (now rewrite Hoq).
+    assert (Hk : is_disc (h_o q) = false) by (now rewrite Hoq).
+    destruct (h_open st HI q Hq Hd Hc Hk) as [Hlast _].
+    assert (q0 = q).
+    { eapply hop_eq_of_b; [apply HI | assumption | assumption|].
+      assert (A1 : h_b q0 <= h_b q) by (apply Hlast; [assumption | assumption | now rewrite Hoq0]).
+      destruct (Z.eq_dec (h_b q0) (h_b q)) as [Eq|Nq]; [assumption|]. exfalso.
+      destruct (Hlater q Hq eq_refl) as [X _]; [lia | congruence]. }
+    subst q0. rewrite Hoq in Hoq0. subst o. cbn in Hpc.
+    (* the session is not cancelled: its disconnect would be a later operation *)
+    assert (Hnc : ~ In (h_c q) (r_cancel (i_s st))).
+    { intro Hcan. destruct (cancel_hop_exists st _ HI Hcan) as (kd & Hkd & Hckd & Hokd).
+      assert (Hkdd : is_disc (h_o kd) = true) by (now rewrite Hokd).
+      destruct (h_disc st HI kd Hkd Hkdd) as (Lastd & _).
+      assert (Hb : h_b q < h_b kd).
+      { assert (A1 : h_b q <= h_b kd) by (apply Lastd; [assumption | congruence]).
+        destruct (Z.eq_dec (h_b q) (h_b kd)) as [Eq|Nq]; [|lia]. exfalso.
+        assert (q = kd) by (eapply hop_eq_of_b; [apply HI | assumption | assumption | assumption]). subst kd. congruence. }
+      specialize (Prem0 kd Hkd Hckd Hb). rewrite Hokd in Prem0. discriminate. }
+    destruct (req_end_established buf _ _ sub R Hpc Hnc) as (fs' & ops1 & Eo1 & Est & _).
     rewrite Eo in Eo1. apply app_inj_tail in Eo1 as [_ Eo1]. inversion Eo1; subst fs'. exact Est.
 Qed.
 
@@ -658,10 +896,11 @@ Lemma istep_new_inv st l h' :
   l = LOp (h_c h') (h_o h') /\ h' = mkHop (h_c h') (h_o h') (i_now st) None.
 Proof.
   intros T E. rewrite (istep_hops_trans st l T) in E.
-  destruct l as [c0 o0|c0|c0 c' ord|c0|c0].
+  destruct l as [c0 o0|c0|c0 c' ord|c0|c0|c0].
   - apply app_inv_head in E. inversion E; subst. cbn. auto.
-  - destruct (is_nil _); apply (f_equal (@length hop)) in E; unfold close_hop in E;
+  - destruct (_ && _); apply (f_equal (@length hop)) in E; unfold close_hop in E;
       rewrite ?map_length, app_length in E; cbn in E; lia.
+  - apply (f_equal (@length hop)) in E. rewrite app_length in E. cbn in E. lia.
   - apply (f_equal (@length hop)) in E. rewrite app_length in E. cbn in E. lia.
   - apply (f_equal (@length hop)) in E. rewrite app_length in E. cbn in E. lia.
   - apply (f_equal (@length hop)) in E. rewrite app_length in E. cbn in E. lia.
@@ -717,7 +956,7 @@ Proof.
     split; [refine (established_trans _ (LOp p (OEvent e)) _ _ _ _ Est _ T); reflexivity|].
     left.
     assert (Hl : label_of_conn p (LOp p (OEvent e)) = true) by (cbn; apply Nat.eqb_refl).
-    destruct (trans_pub_view _ _ _ p I T Hl) as [(o & El & Hpc & Hpc' & Hc)|[(e1 & El & _)|(_ & _ & _ & _ & (c' & [El|(c2 & ord & El)]))]];
+    destruct (trans_pub_view _ _ _ p I T Hl) as [(o & El & Hpc & Hpc' & Hc)|[(e1 & El & _)|[(_ & _ & _ & _ & [El|[(c2 & ord & El)|El]])|(El & _)]]];
       try discriminate.
     inversion El; subst o. rewrite Hpc', Hc. cbn. split; [eauto|].
     pose proof (p_len st PI p) as L. rewrite Hpc in L. cbn in L. lia. }
@@ -757,7 +996,7 @@ Proof.
     destruct (C1 EvP1) as [Est Prg].
     destruct (pub_nth_In _ _ _ _ HP') as (HPin' & _ & _).
     destruct (hop_closed_now st l P P' (i_now st) HI T HPin EvP1 HPin' (conj SP1 (conj SP2 SP3)) EvP2)
-      as (El & Hpc' & _).
+      as (El & _ & Hpc' & _).
     rewrite HPc in El, Hpc'. subst l.
     assert (Prg' : progress (step (i_s st) (LRun p)) p (h_c q) sub fs e n).
     { eapply progress_trans; try eassumption. }
